@@ -791,7 +791,35 @@ class PEnv(e1.Op):
         return [env]
 
     def shadow(self, task, rec, sins, outs, ins=None):
-        return [EnvShadow(rec["args"]["kind"], rec["in"][0], sins[0].copy())]
+        exact = True
+        if rec["args"]["kind"] == "bp":
+            comp = {}
+            exact = loop_free(ins[0], comp)      # belief propagation is exact only when the bonds of dimension > 1 form a forest
+            if not exact:
+                return [None]
+            esh = EnvShadow(rec["args"]["kind"], rec["in"][0], sins[0].copy(), exact)
+            esh.bond_D = {(tuple(b[0]), tuple(b[1])): D for b, D in ins[0].get_bond_dimensions().items()}
+            esh.comp = comp
+            return [esh]
+        return [EnvShadow(rec["args"]["kind"], rec["in"][0], sins[0].copy(), exact)]
+
+
+def loop_free(psi, components=None):
+    """The bonds with dimension > 1 form a forest (union-find)."""
+    parent = {} if components is None else components
+
+    def find(x):
+        while parent.setdefault(x, x) != x:
+            parent[x] = parent[parent[x]]
+            x = parent[x]
+        return x
+    for b, D in psi.get_bond_dimensions().items():
+        if D > 1:
+            a, c = find(tuple(b[0])), find(tuple(b[1]))
+            if a == c:
+                return False
+            parent[a] = c
+    return True
 
 
 def pick_env(g):
@@ -899,7 +927,23 @@ class PMeasure(e1.Op):
         if fn in ("2site", "2site_v"):
             return [("pairs", env.measure_2site(ops_[0], ops_[1], pairs=ar["pairs"], dirn=ar["dirn"], opts_svd=dict(BIG_SVD)))]
         f = {"2x2": "measure_2x2", "line": "measure_line", "nsite": "measure_nsite", "nsite_exact": "measure_nsite_exact"}[fn]
-        return [("val", getattr(env, f)(*ops_, sites=st))]
+        if fn != "nsite":
+            return [("val", getattr(env, f)(*ops_, sites=st))]
+        # measure_nsite contracts a window with boundary MPSs truncated to the environment's own bond dimension (not a parameter):
+        # an external probe on mps.zipper observes the discarded weight; the value is held to exactness only if nothing was discarded
+        disc = []
+        orig = mps.zipper
+
+        def observed(a, b, opts_svd=None, normalize=True, return_discarded=False):
+            out, d = orig(a, b, opts_svd=opts_svd, normalize=normalize, return_discarded=True)
+            disc.append(float(d))
+            return (out, d) if return_discarded else out
+        mps.zipper = observed
+        try:
+            val = getattr(env, f)(*ops_, sites=st)
+        finally:
+            mps.zipper = orig
+        return [("val" if max(disc + [0.0]) < 1e-12 else "val_truncated", val)]
 
     def shadow(self, task, rec, sins, outs, ins=None):
         w = core.current_world()
@@ -921,7 +965,19 @@ def check_measure(task, rec, result, esh, world, prop="C12", tol=1e-8):
     sh = esh.state
     names = ar["ops"]
 
+    def root(x):
+        while esh.comp.get(x, x) != x:
+            x = esh.comp[x]
+        return x
+
     def cmp(got, sites, what):
+        if esh.kind == "bp" and len(sites) == 2:
+            a, b = tuple(sites[0]), tuple(sites[1])
+            D = esh.bond_D.get((a, b), esh.bond_D.get((b, a)))
+            if D == 1 and root(a) == root(b):
+                # the two sites are correlated through the rest of the tree, not through this (trivial) bond: BP is not exact here
+                world.probes["bp_value_on_non_tree_bond_not_held_to_exactness"] += 1
+                return
         ref = expectation(task, sh, sites, names[:len(sites)])
         if not np.isfinite(complex(got)) or abs(complex(got) - ref) > tol * max(1.0, abs(ref)):
             raise V(prop, "expectation-value", "op %d %s(%s) on a %s environment: %s returned %r, dense state gives %r (difference %.3e)"
@@ -929,6 +985,9 @@ def check_measure(task, rec, result, esh, world, prop="C12", tol=1e-8):
         world.stats["values_checked"] += 1
         if all(nm == "I" for nm in names[:len(sites)]):
             world.probes["identity_measured"] += 1
+    if kind == "val_truncated":
+        world.probes["window_truncation_bound_value_not_held_to_exactness"] += 1
+        return
     if kind == "val":
         cmp(val, ar["sites"], "sites %s" % ar["sites"])
     elif kind == "sites":
@@ -951,3 +1010,112 @@ def check_measure(task, rec, result, esh, world, prop="C12", tol=1e-8):
 
 
 E3_WEIGHTS_C12 = {"p_prepare": 0.7, "p_env": 2, "p_measure": 10}
+
+
+# ---- bond metrics (external probe on env.bond_metric) and untruncated evolution steps -----------------------------------
+
+NTU_WHICH = ["NN", "NN+", "NN++", "NNN", "NNN+", "NNN++"]
+BP_WHICH = ["BP", "NN+BP", "NNN+BP"]
+
+
+def check_metric(g, rec, which, where, world, prop="C12", tol=1e-9):
+    """Hermitian and positive semi-definite up to round-off."""
+    gs = [g.g] if hasattr(g, "g") else [g.gL, g.gR]
+    for x in gs:
+        M = x.to_numpy()
+        nrm = float(np.linalg.norm(M))
+        if not np.isfinite(nrm) or nrm == 0:
+            raise V(prop, "metric", "op %d: bond metric %s at %s has norm %r" % (rec["id"], which, where, nrm), which=which)
+        ah = float(np.linalg.norm(M - M.conj().T)) / 2 / nrm
+        ev = np.linalg.eigvalsh((M + M.conj().T) / 2)
+        if ah > tol or ev.min() < -tol * nrm:
+            raise V(prop, "metric", "op %d: bond metric of environment %s at bond %s is not Hermitian PSD up to round-off: anti-Hermitian part %.3e, smallest eigenvalue %.3e (relative to the norm)"
+                    % (rec["id"], which, where, ah, ev.min() / nrm), which=which)
+        world.stats["metrics_checked"] += 1
+        world.stats["metric_%s" % which] += 1
+
+
+@e1.register
+class PEvolve(e1.Op):
+    """evolution_step_ with a truncation that does not bind, on an NTU/BP environment; metrics observed through a probe."""
+    name = "p_evolve"
+    inplace = True
+
+    def nout(self, rec):
+        return 0
+
+    def gen(self, g):
+        rng, t = g.rng, g.task
+        sp = t.space
+        psi = pick_peps(g)
+        if psi is None or t.N < 2:
+            return None
+        rec = None
+        for _ in range(10):
+            rec = e1.OPS["p_gate"].gen(g)
+            if rec is not None and rec["args"]["kind"] in ("nn_exp", "hopping", "Heisenberg", "Ising", "tJ", "path2", "mpo") and len(rec["args"]["sites"]) <= 3:
+                break
+            rec = None
+        if rec is None:
+            return None
+        a = rec["args"]
+        if sp.family == "SpinfulFermions" and a["kind"] not in ("hopping",):
+            return None       # keep bond dimensions small
+        fam = rng.choice(["ntu", "ntu", "bp"])
+        a2 = {"gate": a, "env": fam, "which": rng.choice(NTU_WHICH if fam == "ntu" else BP_WHICH), "method": rng.choice(["mpo", "NN"]),
+              "initialization": rng.choice(["EAT_SVD", "SVD", "EAT"]), "fix_metric": rng.choice([0, 0, 1, None])}
+        return {"op": "p_evolve", "in": [psi], "args": a2}
+
+    def run(self, task, rec, ins):
+        ar = rec["args"]
+        psi = ins[0]
+        gate = e1.OPS["p_gate"].build_gate(task, ar["gate"])
+        env = fpeps.EnvNTU(psi, which=ar["which"]) if ar["env"] == "ntu" else fpeps.EnvBP(psi, which=ar["which"])
+        seen = []
+        orig = env.bond_metric
+
+        def observed(Q0, Q1, s0, s1, dirn):
+            g = orig(Q0, Q1, s0, s1, dirn)
+            seen.append((g, (tuple(s0), tuple(s1), dirn)))
+            return g
+        env.bond_metric = observed
+        infos = fpeps.evolution_step_(env, [gate], opts_svd={"D_total": 1 << 12, "tol": 1e-15}, method=ar["method"], initialization=ar["initialization"], fix_metric=ar["fix_metric"])
+        self._last = (seen, infos)
+        return []
+
+    def shadow(self, task, rec, sins, outs, ins=None):
+        ar = rec["args"]
+        sh, psi, slot = sins[0], ins[0], rec["in"][0]
+        w = core.current_world()
+        new_state = PShadow(dense_peps(task, psi, sh.purified), sh.purified, sh.anc_t)
+        task.shadows[slot] = new_state            # later measurements refer to the state as it is now
+        for q, esh in list(task.shadows.items()):   # environments built from the old tensors are stale caches now
+            if isinstance(esh, EnvShadow) and esh.psi_slot == slot:
+                task.shadows[q] = None
+        if getattr(w, "generating", False):
+            return []
+        seen, infos = self._last
+        for g, where in seen:
+            check_metric(g, rec, ar["which"], where, w)
+        a = ar["gate"]
+        step = complex(*a["step"]) if a["step"][1] else a["step"][0]
+        H = e1.OPS["p_gate"].dense_H(task, sh, a)
+        Gd = a.get("scale", 1.0) * (np.eye(H.shape[0]) - step * H) if a["kind"] == "mpo" else scipy.linalg.expm(-step * H)
+        ref = apply_to_state(task, Gd, sh.arr)
+        got = new_state.arr
+        c = np.vdot(ref, got) / np.vdot(ref, ref)
+        dev = float(np.linalg.norm(got - c * ref) / max(np.linalg.norm(got), 1e-300))
+        errs = [float(i.truncation_error) for i in infos]
+        if dev > 1e-7 or abs(c) < 1e-12:
+            raise V("C12", "untruncated-evolution", "op %d: evolution_step_ (env %s, method %s, initialization %s) with a non-binding truncation does not reproduce the exactly evolved state up to normalisation: "
+                    "relative deviation %.3e (reported truncation errors %s)" % (rec["id"], ar["which"], ar["method"], ar["initialization"], dev, errs), which=ar["which"])
+        if any(not np.isfinite(e) or e > 1e-6 for e in errs):
+            raise V("C12", "truncation-error", "op %d: evolution_step_ (env %s, method %s, initialization %s) with a non-binding truncation reports truncation errors %s (state deviation %.3e)"
+                    % (rec["id"], ar["which"], ar["method"], ar["initialization"], errs, dev), which=ar["which"])
+        w.stats["evolutions_checked"] += 1
+        w.stats["evolve_%s_%s" % (ar["env"], ar["method"])] += 1
+        w.probes["max_reported_truncation_error_1e-9_units"] = max(w.probes["max_reported_truncation_error_1e-9_units"], int(max(errs + [0]) / 1e-9))
+        return []
+
+
+E3_WEIGHTS_C12 = {"p_prepare": 0.7, "p_env": 2, "p_measure": 10, "p_evolve": 3}
